@@ -127,6 +127,19 @@ CLAIMED = {
          "with deep snapshots of every argument before / after; every derived continuum mutated and its source re-read (and conversely); container "
          "identities pairwise distinct; random histories of new / copy / derive / add on real objects and the extracted heap model.",
          TB + "PARTIAL: purity of the Python computations is only checked per explored call."),
+ "C18": ("4/C18", "CSV round-trip theorem on a character-level model of Python's csv module + byte-for-byte comparison and generated annotation files",
+         "Theorems: read(write(rows)) = rows for every delimiter other than quote / CR / LF and ALL field texts (rows of >= 2 fields); the original "
+         "text-mode layer is refuted for fields containing CR (repaired by a fix commit) and proved harmless otherwise; zero-length rows are discarded / "
+         "rejected exactly as requested; tier importers yield exactly one unit per non-empty interval / annotation of the selected tiers with the file's "
+         "times and the requested label. Tie: csv.writer / csv.reader vs the extracted writer / reader byte for byte on generated texts; to_csv -> from_csv "
+         "round trips of generated continua (file content = model's); generated .TextGrid / .eaf / .rttm files loaded and compared with the model's adds.",
+         TB + "PARTIAL: third-party parsers and float repr are oracles."),
+ "C20": ("4/C20", "finite decisions over the option table regenerated from cli_apps.py on every run + in-process CLI vs API comparison",
+         "Theorems (re-proved against coq/gen/CliGen.v, which harness/gen_tables.py regenerates from the current source): every -d choice the parser accepts "
+         "is mapped to the documented class, no branch is dead, choices are injective, every semantic option is wired to the parameter it names. "
+         "Tie: the command-line entry point run in-process on generated CSV / RTTM files over option combinations, numbers parsed from print / CSV / JSON "
+         "output and compared with compute_gamma called with the denoted configuration and the same seed.",
+         TB + "PARTIAL: translator (AST of cli_apps.py, fail-closed) is trusted; number formatting compared with tolerance 1e-6."),
 }
 
 checks = []
